@@ -27,6 +27,11 @@ mod re_matcher;
 mod re_program;
 mod regex;
 
+// Verification hook (add-only): compiled only by `cargo kani`, which sets
+// `--cfg kani`. The harness source is supplied by the verification runner.
+#[cfg(kani)]
+mod verif_kani;
+
 pub use crate::analyze_string::{AnalyzeEntry, MatchEntry};
 pub use crate::re_compiler::Error;
 pub use crate::regex::Regex;
